@@ -75,7 +75,7 @@ struct RepGen {
             per_round += m.results;
             round_meas.push_back(m);
         }
-        if (rng.chance(0.35)) heralds = 1;
+        if (rng.chance(0.4)) heralds = 1 + rng.below(3);   // broadcast heralded channels: one result per target
         per_round += heralds;
         // the herald sits at the same place of every round, so that lookbacks stay aligned
         herald_fixed = heralds ? rng.below(round_meas.size() + 1) : SIZE_MAX;
@@ -119,9 +119,10 @@ struct RepGen {
         size_t h_at = herald_fixed;
         for (size_t i = 0; i <= round_meas.size(); i++) {
             if (i == h_at) {
-                uint32_t q = (uint32_t)rng.below(nd);
-                if (rng.chance(0.5)) c.safe_append_u("HERALDED_ERASE", {q}, {rng.chance(0.8) ? 0.125 : 0.0});
-                else c.safe_append_u("HERALDED_PAULI_CHANNEL_1", {q}, {rng.chance(0.5) ? 0.0625 : 0.0, 0.0625, rng.chance(0.5) ? 0.03125 : 0.0, 0.0625});
+                std::vector<uint32_t> qs;
+                for (size_t h = 0; h < heralds; h++) qs.push_back((uint32_t)rng.below(nd));
+                if (rng.chance(0.5)) c.safe_append_u("HERALDED_ERASE", qs, {rng.chance(0.8) ? 0.125 : 0.0});
+                else c.safe_append_u("HERALDED_PAULI_CHANNEL_1", qs, {rng.chance(0.5) ? 0.0625 : 0.0, 0.0625, rng.chance(0.5) ? 0.03125 : 0.0, 0.0625});
             }
             if (i == round_meas.size()) break;
             const auto &m = round_meas[i];
